@@ -20,14 +20,15 @@ import regen_c14
 
 PID = "C14"
 THEOREMS = ["all_tables_wf", "all_triples_indexed", "offsets_as_prescribed", "dynamic_offset_aligned_after_prev",
-            "no_overlap", "segments_intact", "gaps_are_pattern", "init_offset_snaps", "init_offset_dynamic_refuted",
-            "parse_merge", "parse_full_image", "raw_recogniser_contract", "parse_noninit_offset_refuted",
-            "fcb_unsupported_family_refuted", "fixed_size_truncation_refuted"]
+            "no_overlap", "segments_intact", "gaps_are_pattern", "init_offset_snaps", "init_offset_valid_start",
+            "parse_merge", "parse_full_image", "raw_recogniser_contract", "fcb_recogniser_contract",
+            "oversize_fixed_segment_rejected", "parse_noninit_offset_refuted"]
 WORKDIR = os.path.join(vlib.WORK, PID, "run")
 NPROC = 6
 CONTAINER = {"mbi": "mbi", "hab_container": "hab", "ahab_container": "ahab", "primary_image_container_set": "ahab",
              "secondary_image_container_set": "ahab", "sb21": "sb21", "sb31": "sb31"}
 RAW_FIXED = ("keyblob", "keystore", "bee_header_0", "bee_header_1")
+SIZED = RAW_FIXED + ("fcb", "fcb_xspi", "xmcd")      # classes loaded by Segment.load_config: at most SIZE bytes
 
 
 def uz(s):
@@ -151,6 +152,8 @@ def oracle_merge(tab, c, data, res):
     if not loaded:
         if res["load"][1] == 2 and "hab_container" in [s["name"] for s, d in zip(tab["rows"], data) if not d]:
             return None              # configuration without the mandatory HAB container: outside the property (see report)
+        if res["load"][1] == 1 and any(s["name"] in SIZED and len(d) > s["size"] > 0 for s, d in zip(tab["rows"], data)):
+            return None              # a fixed-size class given more bytes than its SIZE is refused: nothing to merge
         what = "rejected" if res["load"][1] == 1 else "crash"
         return (f"merge:{what}:{cls}:{where}", f"load_from_config of an admissible configuration raised {res['load']}")
     if res["io"] != sp["io"]:
@@ -685,6 +688,24 @@ def run(tier):
                        extra={"rejected_or_error": len(idx) - len(ok), "tables": len({cases[i]["table"] for i in idx}),
                               "triples": len({(cases[i]["family"], cases[i]["rev"], cases[i]["mem"]) for i in idx}),
                               "parses": nparse})
+    # scenario classes exercised by the round-trip stream (counted on successful, byte-exact recoveries)
+    n_float, n_short = 0, 0
+    for c, d, r in zip(cases, datas, results):
+        if c["stream"] != "roundtrip" or r["load"][0] != "ok":
+            continue
+        rows = tables[c["table"]]["rows"]
+        for mode, p in (r.get("parses") or {}).items():
+            if isinstance(p, list):
+                continue
+            got = [uz(x[5]) if isinstance(x[5], str) else None for x in p["segs"]]
+            for k, srow in enumerate(rows):
+                if srow["offset"] < 0 and d[k] and d[k - 1] and srow["align"] != rows[k - 1]["align"] \
+                        and len(d[k - 1]) % srow["align"] != 0 and got[k] == d[k] and got[k - 1] == d[k - 1]:
+                    n_float += 1
+            start = p["io"]
+            total = len(uz(r["image"])) - (int(mode[3:]) if mode.startswith("cut") else 0)
+            if start > 0 and total <= start and any(g for g in got):
+                n_short += 1
     rep.add_stream("database sweep: every (family, revision, memory type) layout checked well-formed in Coq and by the table oracle",
                    len(triples), len(tables), samples=[tables[0]["rows"]], exhaustive=True)
     shutil.rmtree(WORKDIR, ignore_errors=True)
@@ -700,7 +721,10 @@ def run(tier):
         assumptions=["segments are supplied as raw binaries (len(segment) = number of bytes)",
                      "fill patterns of the database are 'zeros' or 'ones' (the extractor fails closed otherwise)",
                      "a structured segment's own parser accepts its own export and reports its length (C01/C06/C07/C12)"],
-        extra_cov={"payloads_unavailable": sorted(why)[:40]})
+        extra_cov={"payloads_unavailable": sorted(why)[:40],
+                   "scenario_classes": {
+                       "floating segment after a predecessor whose length is not a multiple of the floating alignment, both recovered by parse": n_float,
+                       "image read from a later init offset and not longer than that offset, segment recovered by parse": n_short}})
 
 
 def summ(x):
